@@ -23,6 +23,9 @@ import pkgutil as _pk
 for _m in sorted(_pk.iter_modules([_os.path.dirname(__file__)]), key=lambda m: m.name):
     if _m.name.startswith("ops_"):
         _il.import_module(f"vk.{_m.name}")  # additional op tables contributed per area
+from .ops_mod2 import ensure_view_getitem as _evg
+
+_evg()  # basic indexing returns views (torch semantics) whichever op table wrapped __getitem__ last
 from .tensor import SymTensor, lift, oarr, payload
 
 # ------------------------------------------------------------------------------------------------
